@@ -438,6 +438,84 @@ fn c07_extend_layers() {
 }
 }
 
+// @harness id=c07_extend_asserts props=C07,C02 tier=quick cap=1800
+// @desc Program::extend_object(X, Y) (the + operator on objects) for a 2-layer X and a 1-layer Y WITHOUT fields, each of the three layers carrying an object assert or not: the result's layers are Y.self, X.self, X.super in that order, every layer keeps its asserts, and the result is marked "asserts not yet checked" whenever ANY layer - including the inherited (super) layer of the LEFT operand - carries one, so that (A + B) + C checks A's asserts just like A + (B + C)
+// @bound X of 2 layers, Y of 1 layer, no fields; 3 symbolic assert placements
+// @funcs Program::extend_object, extend_object_clone_layer
+eval_stubs! {
+#[kani::proof]
+#[kani::unwind(6)]
+fn c07_extend_asserts() {
+    let arena = Arena::new();
+    let mut program = bare_program(&arena);
+    let f = program.str_interner.intern(&arena, "f");
+    let g = program.str_interner.intern(&arena, "g");
+    let none2 = [ABSENT; 2];
+    let none1 = [ABSENT; 1];
+    let mut x = mk_object(f, g, &none2, &none2);
+    let mut y = mk_object(f, g, &none1, &none1);
+    let null_expr: &ir::Expr<'_> = arena.alloc(ir::Expr::Null);
+    let ctx = crate::span::SpanContextId::kani_zero();
+    let span = program.span_mgr.intern_span(ctx, 0, 0);
+    let one_assert: &[ir::Assert<'_>] = arena.alloc_slice(&[ir::Assert { span, cond: null_expr, cond_span: span, msg: None }]);
+    let has_assert: [bool; 3] = kani::any();
+    if has_assert[0] { y.self_layer.asserts = one_assert; }
+    if has_assert[1] { x.self_layer.asserts = one_assert; }
+    if has_assert[2] { x.super_layers[0].asserts = one_assert; }
+    // the operands may already have had their own asserts checked
+    x.asserts_checked.set(kani::any());
+    y.asserts_checked.set(kani::any());
+    let r = program.extend_object(&x, &y).view();
+    assert!(r.super_layers.len() == 2, "1 + 2 layers");
+    assert!(r.self_layer.asserts.len() == has_assert[0] as usize && r.super_layers[0].asserts.len() == has_assert[1] as usize
+        && r.super_layers[1].asserts.len() == has_assert[2] as usize, "every layer keeps its asserts, in the order Y.self, X.self, X.super");
+    if has_assert[0] || has_assert[1] || has_assert[2] {
+        assert!(!r.asserts_checked.get(), "an object that inherits an assert from ANY layer must still check it against the combined object");
+    }
+    kani::cover!(has_assert[2] && !has_assert[0] && !has_assert[1], "the only assert sits in the super layer of the left operand");
+    kani::cover!(!has_assert[0] && !has_assert[1] && !has_assert[2], "no asserts at all");
+    core::mem::forget((x, y, r));
+    core::mem::forget(program);
+}
+}
+
+// @harness id=c07_remove_key_one_layer props=C07 tier=attempt cap=1800
+// @desc std.objectRemoveKey at its Rust entry point on a ONE-layer object whose field f has ANY visibility (default, hidden, forced visible): afterwards f does not exist (has_field(0, f) is false, not only "not visible") - a hidden field is removed like any other
+// @bound one-layer objects; the field present with a symbolic visibility
+// @funcs Evaluator::do_std_object_remove_key, Program::object_with_field_removed, ObjectData::has_field
+eval_stubs! {
+#[kani::proof]
+#[kani::unwind(6)]
+fn c07_remove_key_one_layer() {
+    let arena = Arena::new();
+    let mut program = bare_program(&arena);
+    let f = program.str_interner.intern(&arena, "f");
+    let g = program.str_interner.intern(&arena, "g");
+    let ef = [any_present()];
+    let eg = [ABSENT; 1];
+    let o = GcView::kani_unmanaged(mk_object(f, g, &ef, &eg));
+    let keep = o.clone();
+    let mut ev = bare_evaluator(&mut program);
+    ev.value_stack.push(ValueData::Object(Gc::from(&o)));
+    ev.value_stack.push(ValueData::String("f".into()));
+    let res = ev.do_std_object_remove_key();
+    assert!(res.is_ok(), "removing a key from an object never fails");
+    match ev.value_stack.last() {
+        Some(ValueData::Object(r)) => {
+            let r = r.view();
+            assert!(!r.has_field(0, f), "the removed field does not exist any more, whatever its visibility was");
+            kani::cover!(ef[0].kind == 2, "a hidden field is removed");
+            core::mem::forget(r);
+        }
+        _ => assert!(false, "an object is returned"),
+    }
+    core::mem::forget(res);
+    core::mem::forget(ev);
+    core::mem::forget(program);
+    core::mem::forget((o, keep));
+}
+}
+
 // @harness id=c07_remove_key props=C07 tier=attempt cap=5400 mem=40
 // @desc std.objectRemoveKey at its Rust entry point on an arbitrary 2-layer object: afterwards the named field does not exist from the top layer (has_field(0), has_visible_field), whatever its previous visibility (hidden fields included), the original layers are kept unchanged below a Removed(2) marker
 // @bound objects of 2 layers; the name is present in the self layer with any visibility and optionally in the super layer
